@@ -38,6 +38,21 @@ Theorem C37_references_well_formed : forall (s : str) (r : ref),
 Proof. intros s r. exact (tokens_from_wf s O r). Qed.
 Print Assumptions C37_references_well_formed.
 
+(** The scanner is the pattern: wherever it reports a reference, that is the
+    leftmost-first, greedy match of  \$\{([^}]+)\}|\$([A-Za-z_][A-Za-z0-9_]* )
+    anchored there (the braced alternative whenever it matches -- it can match
+    in one way only --, else the simple one with the longest name); wherever
+    it reports none, no well-formed reference starts there. *)
+Theorem C37_scanner_is_the_pattern :
+  (forall s r rest, match_here s = Some (r, rest) ->
+     s = ref_src r ++ rest /\ wf_ref r /\
+     (forall b rest', wf_ref (RBraced b) -> s = ref_src (RBraced b) ++ rest' -> r = RBraced b /\ rest = rest') /\
+     (forall nm rest', wf_ref (RSimple nm) -> s = ref_src (RSimple nm) ++ rest' ->
+        exists nm' more, r = RSimple nm' /\ nm' = nm ++ more /\ rest' = more ++ rest)) /\
+  (forall s r rest, wf_ref r -> s = ref_src r ++ rest -> match_here s <> None).
+Proof. exact (conj match_here_is_the_regex_match match_here_complete). Qed.
+Print Assumptions C37_scanner_is_the_pattern.
+
 (** The documented forms, wherever they are written (any continuation
     [rest], any dollar-free text before them). *)
 Theorem C37_form_braced : forall (e : env) (nm rest : str),
